@@ -42,7 +42,13 @@ def run_stress(ctx, prop, kind, rng):
             xs = list(range(x))
         w["plans"] = [{"name": p["name"], "jobs": p["jobs"]} for p in plans]
         w["total"] = total
-        hs = [case.start(p, cert=True, extra_env={"XV_LOGLEVEL": "INFO"}) for p in plans]
+        extra = {"XV_LOGLEVEL": "INFO"}
+        if rng.random() < 0.5:
+            # preemption injection in the token / lock / file-watcher code of every scheduler process
+            extra["VERIF_DELAY"] = f"{rng.randrange(10**6)}:{rng.choice([0.02, 0.05, 0.15])}:{rng.choice([1, 3, 8])}:{case.base / 'delays.log'}"
+            w["delay"] = extra["VERIF_DELAY"].rsplit(":", 1)[0]
+            ctx.count("enga_runs_with_preemption_injection")
+        hs = [case.start(p, cert=True, extra_env=extra) for p in plans]
         killed = None
         if kind == "token-kill":
             # kill one scheduler while one of its jobs is running (its token must come back once the job has ended)
@@ -84,6 +90,13 @@ def run_stress(ctx, prop, kind, rng):
                 return
         ctx.count("enga_runs")
         ctx.count("enga_schedulers", nsched)
+        dl = case.base / "delays.log"
+        if dl.is_file():
+            for l in dl.read_text().splitlines():
+                parts = l.split()
+                if len(parts) == 3:
+                    ctx.count("enga_injected_delays", int(parts[1]))
+                    ctx.count("enga_delay_candidate_lines", int(parts[2]))
         ev = enga.parse_body(case.body_log())
         ctx.count("enga_body_events", len(ev))
         w["log"] = case.body_log()[:60]
